@@ -161,6 +161,14 @@ def gen_inputs(ctx, tier):
               "(define v (vector 1)) (vector-set! v 0 v) (vector-set! '#(1) 0 v)", "(define v (vector 1)) (vector-set! v 0 v) (vector-ref v v)", "(define v (vector 1)) (vector-set! v 0 v) (car v)",
               "(define v (vector 1)) (vector-set! v 0 v) (memv v (list 1 v))", "(define v (vector 1)) (vector-set! v 0 v) (equal? (list v) (list v))", "(define v (vector 1)) (vector-set! v 0 v) v"]:
         inputs.append(("self_containing", t))
+    # every kind of escape in strings, |identifiers| and character literals, with code points at and beyond every boundary
+    for cp in ["0", "41", "7f", "80", "d7ff", "d800", "DBFF", "dfff", "e000", "ffff", "10000", "10ffff", "110000", "ffffffff", "100000000", "", "g", "-1", "00000041"]:
+        for t in ['(display "\\x%s;")' % cp, '(display "a\\x%s;b\\x%s")' % (cp, cp), "(display '|\\x%s;|)" % cp, "(display #\\x%s)" % cp, '(list "\\x%s" 1)' % cp, "#\\x%s;" % cp, '"\\u%s"' % cp, '"\\U%s"' % cp]:
+            inputs.append(("escapes", t))
+    for nm in ["space", "newline", "tab", "nul", "null", "alarm", "backspace", "delete", "escape", "return", "altmode", "rubout", "linefeed", "page", "SPACE", "Space", "x", "xx", "U+41"]:
+        inputs.append(("escapes", "(display #\\%s)" % nm)); inputs.append(("escapes", "(list #\\%s#\\%s)" % (nm, nm)))
+    for e in "abtnrfv0123456789 \\\"'?exuUN\n":
+        inputs.append(("escapes", '(display "a\\%sb")' % e))
     nh = 3000 if tier == "quick" else core.share(40000)
     for _ in range(nh):
         inputs.append(("hostile_chars", gen_text.hostile(rng, vocab)))
